@@ -181,6 +181,7 @@ func runAll(rep *vx.Report, cases []aCase, batch int, crashClause string) {
 
 func checkC17(tier string) int {
 	rep := vx.NewReport("C17", tier, "exploration")
+	rep.Assumptions = []string{"the identity is whatever the configured ACL header carries (nsqadmin trusts its reverse proxy)", "real loopback stub upstreams, no controlled scheduler: the decision is made before any upstream call, so nothing is scheduling-dependent"}
 	rep.Rule = "E5: every route of nsqadmin's HTTP server (state-changing and read-only) x body {valid action for that route, invalid} x identity {absent, empty, non-admin, admin, case variant, trailing space, list, prefixed} x admin list {[], [admin], [admin, root]} x ACL header {default, custom, identity sent under the other header name}; /config GET/PUT x remote address x allowed CIDR. Stub nsqd/nsqlookupd upstreams record every request. distinct = distinct (route class, status, upstream writes) outcomes"
 	var cases []aCase
 	type rt struct{ route, good, bad string }
